@@ -236,6 +236,7 @@ class Evaluator:
         self.bool_registry: Dict[str, G] = {}        # boolean masks that were turned into opaque index atoms
         self.summarise_loops = True                  # exact loop summaries (seqdom) instead of havoc where possible
         self.gen_depth = 0
+        self.prealloc: Dict[Any, Rat] = {}
         self.record_divisions = False
         self.divisions: List[Any] = []
         self.range_registry: Dict[Any, Any] = {}
@@ -572,6 +573,22 @@ class Frame:
             v = self.expr(st.value, env)
             for t in st.targets:
                 self.assign(t, v, env, guard, st)
+            if len(st.targets) == 1 and isinstance(st.targets[0], ast.Name):
+                # `A = np.zeros(N)` / np.empty(N): a float array of N slots, remembered so that a loop filling A[i] for every
+                # position i can be read as building the list of those values
+                nm_ = st.targets[0].id
+                self.ev.prealloc.pop((self.fi.qualname, nm_), None)
+                c_ = st.value
+                if isinstance(c_, ast.Call) and len(c_.args) == 1 and not c_.keywords and isinstance(v, Rat) and v.is_zero() and guard.kind == "true":
+                    r_ = self.ev.lk.resolve(self.mod, c_.func)
+                    nm2_ = getattr(getattr(r_, "obj", None), "__name__", "") if r_ is not None and r_.kind == "dep" else ""
+                    if nm2_ in ("zeros", "empty"):
+                        try:
+                            ln_ = self.expr(c_.args[0], env)
+                        except Unsupported:
+                            ln_ = None
+                        if isinstance(ln_, Rat) and not ln_.is_array():
+                            self.ev.prealloc[(self.fi.qualname, nm_)] = ln_
             return guard
         if isinstance(st, ast.AnnAssign):
             if st.value is not None:
